@@ -1900,6 +1900,11 @@ int xmp_start_player(xmp_context opaque, int rate, int format)
 	if (ctx->state < XMP_STATE_LOADED)
 		return -XMP_ERROR_STATE;
 
+	/* Channel tables (xxc, channel_mute, inject_event) hold
+	 * XMP_MAX_CHANNELS entries for module and smix channels together. */
+	if (mod->chn + smix->chn > XMP_MAX_CHANNELS)
+		return -XMP_ERROR_INVALID;
+
 	if (ctx->state > XMP_STATE_LOADED)
 		xmp_end_player(opaque);
 
